@@ -106,6 +106,22 @@ def run(tier, seed):
             run.sample(res["sample"], limit=4)
         run.report_all(res["findings"])
     run.coverage["ir_trees_printed"] = ntrees
+    # (c) the real back ends (tensora's own cffi compile with its own flags, and MCJIT) on rounding-sensitive sentences
+    from ..realbe import MENU
+
+    real_elems = 0
+    for status, res in run_pool("vx.realbe", "work", [{"k": k, "prop": "C06"} for k in range(len(MENU))]):
+        if status == "skipped":
+            continue
+        if status != "ok":
+            run.report({"signature": {"kind": status}, "what": f"worker failed: {res}", "case": {}})
+            continue
+        real_elems += res["n"]
+        for k, v in res["stats"].items():
+            run.counters[k] += v
+        for smp in res["samples"]:
+            run.sample(smp, limit=5)
+        run.report_all(res["findings"])
     cases = sum(t["cases"] for t in totals)
     validated = sum(t["validated"] for t in totals)
     kernels = sum(t["kernels"] for t in totals)
@@ -119,8 +135,9 @@ def run(tier, seed):
     ]
     run.coverage["nx_stride_beyond_base_space"] = stride
     return run.finish(
-        states=cases + tree_states, transitions=cases * 5 + tree_states, traces_validated=validated + tree_valid,
-        evaluations=cases + tree_states, distinct_nontrivial=validated // 3 + tree_valid // 2,
+        states=cases + tree_states + len(MENU), transitions=cases * 5 + tree_states + real_elems,
+        traces_validated=validated + tree_valid + real_elems,
+        evaluations=cases + tree_states + len(MENU), distinct_nontrivial=validated // 3 + tree_valid // 2,
         rule=f"(a) every {'2nd ' if base_stride == 2 else ''}kernel of the L<=2,S<=3 program space x all formats "
              f"(offset rotated by VERIF_SEED), plus every {stride}th kernel of the wider space: evaluate/assemble/compute printed by the real ir_to_c and "
              "ir_to_llvm, compiled by gcc (ASan+UBSan), clang-14 (ASan) and MCJIT (compile_module), driven through "
@@ -132,7 +149,9 @@ def run(tier, seed):
              "+ - * trees under every int/float typing, comparison/min/max/and/or/bool-to-int nests, assignments incl. "
              "compound-assignment shapes, blocks/branches/loops to nesting depth 2) wrapped in a function, printed by "
              "ir_to_c and ir_to_llvm, compiled by gcc and MCJIT and run on all 128 environments on which the "
-             "abstract machine runs it safely: final arrays must be bit-identical",
+             "abstract machine runs it safely: final arrays must be bit-identical. (c) a menu of 8 sentences whose "
+             "operands make any fused or re-ordered evaluation visible (d = fl(b*c)), through the real evaluate_cffi "
+             "(tensora's own compiler flags) and evaluate_tensora: every element bit-identical to multiply-round-add-round",
         exhaustive=True,
         extra={"kernels_compiled": kernels},
     )
@@ -144,6 +163,15 @@ def replay(path):
     with open(path) as f:
         rec = json.load(f)
     case = rec["case"]
+    if case.get("realbe"):
+        from ..realbe import replay as rb_replay
+
+        what = rb_replay(case, "C06")
+        print(what)
+        if what:
+            print(f"VIOLATION property=C06 replay={path}")
+            return 1
+        return 0
     if "tree" in case:
         from ..txwork import replay_printers
 
